@@ -646,9 +646,15 @@ def s5_closure_specs(toks, specs, fn_name, log):
         params, ret, given_post = specs[ordinal]
         body = text_of(out[b0:k]).strip()
         names = [tt.text for tt in out[i + 1:j] if tt.kind == L.IDENT]
-        want = [q.split(":")[0].strip() for q in params.split(",")]
-        if names != want:
-            raise Unsupported("closure %d of fn %s binds %s, directive names %s" % (ordinal, fn_name, names, want))
+        # the directive gives the parameter TYPES (`(A, B)`, or `(x: A, y: B)` whose names are ignored); the names are the source's,
+        # so renaming a closure parameter in the repository changes nothing; `$0`, `$1` in a stated postcondition stand for them
+        types = [q.split(":")[-1].strip() for q in params.split(",") if q.strip()]
+        if len(types) != len(names) or any(tt.text == ":" for tt in out[i + 1:j]):
+            raise Unsupported("closure %d of fn %s: %d untyped parameters expected, source has `%s`" % (ordinal, fn_name, len(types), text_of(out[i:j + 1])))
+        params = ", ".join("%s: %s" % (nm, ty) for nm, ty in zip(names, types))
+        if given_post:
+            for k_, nm in enumerate(names):
+                given_post = given_post.replace("$%d" % k_, nm)
         # the postcondition is the body itself written with the spec names of the operators (Verus' spec mode has no
         # operator overloading for user types): `a OP b` -> a.OP_spec(b), `-a` -> a.neg_spec(); other shapes are not handled
         bt = [tt for tt in out[b0:k] if not L.is_trivia(tt)]
